@@ -669,10 +669,72 @@ def site_key(site):
     return '%s|%s|%s|%s' % (site.kind, body.id, short(site.what) if site.kind != 'assert' else site.what, d)
 
 
+def _split_path(p):
+    """split a def path on '::' outside angle brackets"""
+    out, cur, depth, i = [], '', 0, 0
+    while i < len(p):
+        ch = p[i]
+        if ch == '<':
+            depth += 1
+        elif ch == '>' and not (i > 0 and p[i - 1] == '-'):
+            depth -= 1
+        if depth == 0 and p.startswith('::', i):
+            out.append(cur)
+            cur = ''
+            i += 2
+            continue
+        cur += ch
+        i += 1
+    out.append(cur)
+    return out
+
+
+def fn_parent(fid):
+    """module / impl prefix of a function id, closures folded into their function"""
+    parts = _split_path(fid)
+    while parts and parts[-1].startswith('{closure'):
+        parts.pop()
+    return '::'.join(parts[:-1])
+
+
+def orphan_index(audited, prog):
+    """audited entries whose function no longer exists under that path (renamed or moved inside its module):
+    (kind, parent, callee, operands) -> [table key]; such an entry may re-attach to the same site shape in a function of
+    the same module that has no entries of its own"""
+    idx = {}
+    for k in audited:
+        parts = k.split('|')
+        if len(parts) < 4 or parts[1].startswith('generated') or k.endswith('|*'):
+            continue
+        fid = parts[1]
+        base = '::'.join(x for x in _split_path(fid) if not x.startswith('{closure'))
+        if fid in prog.bodies or base in prog.bodies:
+            continue
+        idx.setdefault((parts[0], fn_parent(fid), parts[2], '|'.join(parts[3:])), []).append(k)
+    return idx
+
+
 def audit_bodies(rep, rule, bodies, audited, classes=('assert', 'panic', 'partial', 'alloc', 'unchecked'), list_all=False, known_prefix=None):
     """every site in `bodies` must be structurally discharged or individually audited"""
     used = set()
     seen_n = {}
+    orphans = orphan_index(audited, bodies[0].prog) if bodies else {}
+    # (new name, old name) candidates: an audited function that no longer exists and a function of the same module that
+    # the table has never heard of
+    renames = []
+    if orphans and bodies:
+        prog = bodies[0].prog
+        table_fns = {k.split('|')[1] for k in audited if k.count('|') >= 3}
+        old_fns = {}
+        for (kind, parent, callee, ops), ks in orphans.items():
+            for k in ks:
+                fid = '::'.join(x for x in _split_path(k.split('|')[1]) if not x.startswith('{closure'))
+                old_fns.setdefault(parent, set()).add(_split_path(fid)[-1])
+        for parent, olds in old_fns.items():
+            news = {_split_path(b.id)[-1] for b in prog.bodies.values() if b.kind in ('Fn', 'AssocFn') and fn_parent(b.id) == parent and b.id not in table_fns}
+            for o in sorted(olds):
+                for n in sorted(news):
+                    renames.append((n, o))
     for b in bodies:
         rep.functions.add(b.id)
         sites = collect_sites(b, classes)
@@ -689,6 +751,19 @@ def audit_bodies(rep, rule, bodies, audited, classes=('assert', 'panic', 'partia
             # an entry ending in '|*' covers the operation in that function whatever its operands are (used only where
             # the recorded reason does not depend on them, e.g. "cannot panic"); still limited to `count` sites
             tkey = key if key in audited else '|'.join(key.split('|')[:3]) + '|*'
+            if tkey not in audited:
+                kp = key.split('|')
+                cand = orphans.get((kp[0], fn_parent(kp[1]), kp[2], '|'.join(kp[3:])), [])
+                if cand:
+                    tkey = cand[0]
+            if tkey not in audited and renames:
+                # a private function was renamed: the key (function path and operand text) read with the old name
+                for new_name, old_name in renames:
+                    if new_name in key:
+                        k2 = re.sub(r'\b%s\b' % re.escape(new_name), old_name, key)
+                        if k2 in audited:
+                            tkey = k2
+                            break
             if how is None and tkey in audited:
                 ent = audited[tkey]
                 reason, allowed = (ent, 1) if isinstance(ent, str) else (ent['reason'], ent.get('count', 1))
